@@ -1,5 +1,5 @@
 (* Lemmas about Env/Header.v: what [contains] means member by member, reflexivity and
-   monotonicity, agreement of the shipped and the repaired reading on nil-free headers. *)
+   monotonicity, AddStamp / AppendLink / meta updates. *)
 From Coq Require Import ZArith List Bool Strings.Byte String Lia.
 From Verif Require Import Base.Wire Env.Header.
 Import ListNotations.
@@ -176,48 +176,26 @@ Proof.
   - unfold covers_notes in *. rewrite Gn. exact Cn.
 Qed.
 
-(* ---- AddStamp / AppendLink / meta on nil-free lists ---- *)
-Lemma add_stamp_fresh l s :
+(* ---- AddStamp / AppendLink: with a new provider / key the old entries stay ---- *)
+Lemma add_stamp_fresh_keeps l s :
   existsb (fun x => match x with Some a => seqb (prv a) (prv s) | None => false end) l = false ->
-  has_none l = false -> add_stamp l s = Ok (l ++ [Some s]).
+  forall x, In (Some x) l -> In (Some x) (add_stamp l s).
 Proof.
-  induction l as [|[v|] l IH]; simpl; intros F N.
-  - reflexivity.
-  - apply orb_false_iff in F as [F1 F2]. rewrite F1. rewrite IH; [reflexivity | exact F2 | exact N].
-  - discriminate.
-Qed.
-Lemma append_link_fresh l n :
-  existsb (fun x => match x with Some a => seqb (lkey a) (lkey n) | None => false end) l = false ->
-  has_none l = false -> append_link l n = Ok (l ++ [Some n]).
-Proof.
-  induction l as [|[v|] l IH]; simpl; intros F N.
-  - reflexivity.
-  - apply orb_false_iff in F as [F1 F2]. rewrite F1. rewrite IH; [reflexivity | exact F2 | exact N].
-  - discriminate.
-Qed.
-
-(* whatever AddStamp does to a list in which the provider is new, the old entries stay *)
-Lemma add_stamp_fresh_keeps l s l' :
-  existsb (fun x => match x with Some a => seqb (prv a) (prv s) | None => false end) l = false ->
-  add_stamp l s = Ok l' -> forall x, In (Some x) l -> In (Some x) l'.
-Proof.
-  revert l'. induction l as [|[v|] l IH]; simpl; intros l' F E x Hin.
+  induction l as [|[v|] l IH]; simpl; intros F x Hin.
   - contradiction.
-  - apply orb_false_iff in F as [F1 F2]. rewrite F1 in E.
-    destruct (add_stamp l s) as [r| |] eqn:A; try discriminate. inversion E; subst.
-    destruct Hin as [Hx|Hin]; [left; exact Hx | right; apply (IH r F2 eq_refl x Hin)].
-  - discriminate.
+  - apply orb_false_iff in F as [F1 F2]. rewrite F1.
+    destruct Hin as [Hx|Hin]; [left; exact Hx | right; apply (IH F2 x Hin)].
+  - destruct Hin as [Hx|Hin]; [discriminate | right; apply (IH F x Hin)].
 Qed.
-Lemma append_link_fresh_keeps l n l' :
+Lemma append_link_fresh_keeps l n :
   existsb (fun x => match x with Some a => seqb (lkey a) (lkey n) | None => false end) l = false ->
-  append_link l n = Ok l' -> forall x, In (Some x) l -> In (Some x) l'.
+  forall x, In (Some x) l -> In (Some x) (append_link l n).
 Proof.
-  revert l'. induction l as [|[v|] l IH]; simpl; intros l' F E x Hin.
+  induction l as [|[v|] l IH]; simpl; intros F x Hin.
   - contradiction.
-  - apply orb_false_iff in F as [F1 F2]. rewrite F1 in E.
-    destruct (append_link l n) as [r| |] eqn:A; try discriminate. inversion E; subst.
-    destruct Hin as [Hx|Hin]; [left; exact Hx | right; apply (IH r F2 eq_refl x Hin)].
-  - discriminate.
+  - apply orb_false_iff in F as [F1 F2]. rewrite F1.
+    destruct Hin as [Hx|Hin]; [left; exact Hx | right; apply (IH F2 x Hin)].
+  - destruct Hin as [Hx|Hin]; [discriminate | right; apply (IH F x Hin)].
 Qed.
 
 Lemma lookup_set_meta_other m k v k' :
@@ -268,107 +246,3 @@ Proof.
   - apply IH; exact ND'.
 Qed.
 
-(* ---- the shipped Contains agrees with the repaired one where no nil is met ---- *)
-Lemma stamp_in_shipped_ok hs s2 :
-  has_none hs = false -> stamp_in_shipped hs (Some s2) = Ok (stamp_in hs s2).
-Proof.
-  induction hs as [|[a|] hs IH]; simpl; intro N; [reflexivity | | discriminate].
-  unfold stamp_in in *. simpl. destruct (stamp_eq a s2); [reflexivity | apply IH; exact N].
-Qed.
-Lemma c_stamps_shipped_ok hs h2s :
-  has_none hs = false -> has_none h2s = false ->
-  c_stamps_shipped hs h2s =
-  Ok (forallb (fun s2 => match s2 with None => true | Some b => stamp_in hs b end) h2s).
-Proof.
-  intros N1. induction h2s as [|[b|] r IH]; simpl; intro N2; [reflexivity | | discriminate].
-  rewrite stamp_in_shipped_ok by exact N1. destruct (stamp_in hs b); [apply IH; exact N2 | reflexivity].
-Qed.
-Lemma link_in_shipped_ok hl l2 :
-  has_none hl = false -> link_in_shipped hl (Some l2) = Ok (link_in hl l2).
-Proof.
-  induction hl as [|[a|] hl IH]; simpl; intro N; [reflexivity | | discriminate].
-  unfold link_in in *. simpl. destruct (link_eq a l2); [reflexivity | apply IH; exact N].
-Qed.
-Lemma c_links_shipped_ok hl h2l :
-  has_none hl = false -> has_none h2l = false ->
-  c_links_shipped hl h2l =
-  Ok (forallb (fun l2 => match l2 with None => true | Some b => link_in hl b end) h2l).
-Proof.
-  intros N1. induction h2l as [|[b|] r IH]; simpl; intro N2; [reflexivity | | discriminate].
-  rewrite link_in_shipped_ok by exact N1. destruct (link_in hl b); [apply IH; exact N2 | reflexivity].
-Qed.
-
-Definition nil_free (h : header) : Prop := has_none (stamps h) = false /\ has_none (links h) = false.
-
-Lemma contains_shipped_ok h h2 :
-  nil_free h -> nil_free h2 -> (dig h2 = None \/ dig h <> None) ->
-  contains_shipped (Some h) h2 = Ok (contains h h2).
-Proof.
-  intros [N1 N2] [M1 M2] D. unfold contains_shipped, contains.
-  destruct (c_uuid h h2); simpl; [|reflexivity].
-  assert (Hd : match dig h2, dig h with Some _, None => False | _, _ => True end).
-  { destruct (dig h2), (dig h); try exact I. destruct D as [D|D]; [discriminate | apply D; reflexivity]. }
-  destruct (dig h2) as [d2|] eqn:E2; destruct (dig h) as [d|] eqn:E1; try contradiction;
-    unfold c_dig; rewrite ?E1, ?E2; simpl.
-  - destruct (seqb (dig_string d) (dig_string d2)); simpl; [|reflexivity].
-    rewrite c_stamps_shipped_ok by assumption. fold (c_stamps h h2). destruct (c_stamps h h2); simpl; [|reflexivity].
-    rewrite c_links_shipped_ok by assumption. fold (c_links h h2). destruct (c_links h h2); reflexivity.
-  - rewrite c_stamps_shipped_ok by assumption. fold (c_stamps h h2). destruct (c_stamps h h2); simpl; [|reflexivity].
-    rewrite c_links_shipped_ok by assumption. fold (c_links h h2). destruct (c_links h h2); reflexivity.
-  - rewrite c_stamps_shipped_ok by assumption. fold (c_stamps h h2). destruct (c_stamps h h2); simpl; [|reflexivity].
-    rewrite c_links_shipped_ok by assumption. fold (c_links h h2). destruct (c_links h h2); reflexivity.
-Qed.
-
-(* ---- duplicate detection on nil-free lists never panics ---- *)
-Lemma stamp_in_set_nopanic v set :
-  has_none set = false -> (v <> None \/ set = []) -> stamp_in_set v set <> Panic.
-Proof.
-  intros N H. induction set as [|[b|] t IH]; simpl in *; try discriminate.
-  destruct v as [a|]; [|destruct H as [H|H]; [congruence | discriminate]].
-  destruct (seqb (prv a) (prv b)); [discriminate|]. apply IH; [exact N | left; discriminate].
-Qed.
-Lemma detect_dup_stamps_nopanic set vs :
-  has_none set = false -> has_none vs = false -> detect_dup_stamps set vs <> VPanic.
-Proof.
-  revert set. induction vs as [|[a|] r IH]; simpl; intros set N1 N2; try discriminate.
-  assert (NP : stamp_in_set (Some a) set <> Panic) by (apply stamp_in_set_nopanic; [exact N1 | left; discriminate]).
-  destruct (stamp_in_set (Some a) set) as [[|]| |]; try discriminate; try contradiction.
-  all: apply IH; [|exact N2]; unfold has_none in *; rewrite existsb_app, N1; reflexivity.
-Qed.
-Lemma link_by_key_nopanic set k : has_none set = false -> link_by_key set k <> Panic.
-Proof.
-  induction set as [|[l|] t IH]; simpl; intro N; try discriminate.
-  destruct (seqb (lkey l) k); [discriminate | apply IH; exact N].
-Qed.
-Lemma detect_dup_links_nopanic set vs :
-  has_none set = false -> has_none vs = false -> detect_dup_links set vs <> VPanic.
-Proof.
-  revert set. induction vs as [|[a|] r IH]; simpl; intros set N1 N2; try discriminate.
-  pose proof (link_by_key_nopanic set (lkey a) N1) as NP.
-  destruct (link_by_key set (lkey a)) as [[|]| |]; try discriminate; try contradiction.
-  all: apply IH; [|exact N2]; unfold has_none in *; rewrite existsb_app, N1; reflexivity.
-Qed.
-
-(* with the repair in place header validation cannot panic: nil entries are rejected first *)
-Lemma validate_header_fixed_nopanic signed h : validate_header true signed h <> VPanic.
-Proof.
-  unfold validate_header, v_uuid, v_dig, v_stamps, v_links. simpl.
-  assert (S : (if negb signed && negb match stamps h with [] => true | _ => false end then VErr
-               else if has_none (stamps h) then VErr else detect_dup_stamps [] (stamps h)) <> VPanic).
-  { destruct (negb signed && _); [discriminate|]. destruct (has_none (stamps h)) eqn:N; [discriminate|].
-    apply detect_dup_stamps_nopanic; [reflexivity | exact N]. }
-  assert (L : (if has_none (links h) then VErr else detect_dup_links [] (links h)) <> VPanic).
-  { destruct (has_none (links h)) eqn:N; [discriminate|]. apply detect_dup_links_nopanic; [reflexivity | exact N]. }
-  destruct (is_empty (uuid h)); destruct (dig h) as [d|]; try destruct (is_empty (alg d) || is_empty (dval d));
-    simpl;
-    match goal with
-    | |- context [v3_and ?a ?b] => destruct a eqn:EA; destruct b eqn:EB; simpl; try discriminate; try contradiction
-    end.
-Qed.
-
-(* on nil-free headers the repair does not change header validation *)
-Lemma validate_header_fix_irrelevant signed h :
-  nil_free h -> validate_header true signed h = validate_header false signed h.
-Proof.
-  intros [N1 N2]. unfold validate_header, v_stamps, v_links. rewrite N1, N2. reflexivity.
-Qed.
